@@ -85,6 +85,21 @@ impl RunLengthEncoding {
     @@RunLengthEncoding::get@@
 }
 
+@@RunLengthIterator@@
+
+impl<'a> RunLengthIterator<'a> {
+    /// how many decoded values have been yielded so far
+    pub open spec fn pos(&self) -> nat { total_len(self.runs@.take(self.run_index as int)) + self.within_run as nat }
+    pub open spec fn wf(&self) -> bool {
+        self.run_index <= self.runs@.len()
+        && (self.run_index < self.runs@.len() ==> self.within_run <= self.runs@[self.run_index as int].length)
+        && (self.run_index == self.runs@.len() ==> self.within_run == 0)
+        && total_len(self.runs@) <= u64::MAX
+    }
+
+    @@RunLengthIterator::next@@
+}
+
 // C15 round trip, derived from the two contracts alone (caller sees only callee contracts).
 fn roundtrip_witness(values: &[u64]) -> (out: Vec<u64>)
     ensures out@ == values@
@@ -179,6 +194,31 @@ def build(repo):
     lemma_total_mono(self.runs@, it.index@ + 1);
     lemma_expand_len(self.runs@.take(it.index@ as int));
     if index < offset + run.length { lemma_expand_at(self.runs@, it.index@ as int, index as int); }
+}''')
+    L.after('''proof {
+    assert(self.runs@.take(self.runs@.len() as int) =~= self.runs@);
+}''')
+    # ---- RunLengthIterator::next (trait method extracted as an inherent method: rule M2) ----------
+    u.item(SRC, 'struct', 'RunLengthIterator').D1(keep_derive=set()).V1()
+    f = u.method(SRC, 'RunLengthIterator', 'next', trait='Iterator').D1().ret('r')
+    f.sub('M2', 'Option<Self::Item>', 'Option<u64>')
+    f.requires('wf', 'old(self).wf()')
+    f.ensures('wf', 'final(self).wf() && final(self).runs@ == old(self).runs@')
+    f.ensures('yields_next', 'old(self).pos() < total_len(old(self).runs@) ==> r == Some(expand(old(self).runs@)[old(self).pos() as int]) && final(self).pos() == old(self).pos() + 1')
+    f.ensures('exhausted', 'old(self).pos() >= total_len(old(self).runs@) ==> r is None')
+    L = f.loop(0).kind('while')
+    L.invariants(
+        ('wf', 'self.wf() && self.runs@ == old(self).runs@'),
+        ('pos', 'self.pos() == old(self).pos()'),
+    )
+    L.decreases('self.runs@.len() - self.run_index')
+    L.body_start('''proof {
+    let k = self.run_index as int;
+    let t = self.runs@.take(k + 1);
+    assert(t.drop_last() =~= self.runs@.take(k));
+    assert(t.last() == self.runs@[k]);
+    lemma_total_mono(self.runs@, k + 1);
+    if self.within_run < self.runs@[k].length { lemma_expand_at(self.runs@, k, self.pos() as int); lemma_expand_len(self.runs@); }
 }''')
     L.after('''proof {
     assert(self.runs@.take(self.runs@.len() as int) =~= self.runs@);
